@@ -14,6 +14,7 @@ import json
 from automata.fa.dfa import DFA
 
 from harness import gen, langoracle
+from harness import dfa_history_lib as H
 from harness.common import guarded, Ctx, Toks, call, enc_dfa, sym_names, toks
 from harness.ops.C04 import reachable_count
 
@@ -30,8 +31,20 @@ RULE = ("cases = ordered pairs of valid DFAs over one alphabet (and single DFAs 
         "mutable-automata option with plain set/dict containers, queries first, then all comparisons judged on the "
         "definition as built; every cached query (isempty / isfinite / maximum_word_length) is called a second time on the same object "
         "and once more after another operation; probe family: the same queries called on a temporary (an object no "
-        "variable refers to) — open finding C06:cached-query-on-temporary")
+        "variable refers to) — open finding C06:cached-query-on-temporary; round 4: anchor streams = ONE long-lived DFA "
+        "against a stream of 30–60 temporaries that are built, compared and dropped (all nine comparisons, the long-lived "
+        "object on the left and on the right; temporaries = random DFAs, variants of the anchor, empty / universal "
+        "language; replay = the whole stream); histories = 2–4 rounds of (1–3 queries of the OTHER query families — "
+        "count_words_of_length / words_of_length / iteration prefix / successor(s) / predecessor(s) / minimum / "
+        "maximum_word_length / cardinality / len / random_word / clear_cache, lengths around n and 2n — then isempty / "
+        "isfinite / the nine comparisons) on the same two objects, plus every DFA with ≤2 states over {a,b} and every "
+        "unary DFA with ≤3 states × one counting / sampling / enumeration query of length k ≤ 2n+1 before isempty / "
+        "isfinite (every 4th combination in the quick tier); every C06 answer judged on the definition, failing "
+        "histories minimised into concrete replays")
 ASSUMPTIONS = ["operands are valid DFAs over the same alphabet (different alphabets are outside the property)",
+               "histories: the queries asked between the C06 queries are read-only queries of the public DFA API with "
+               "arguments in their own domains (lengths ≥ 0, start strings over the alphabet, forward successor search with a "
+               "max_length); their answers are not judged here (C13 / C14 own them) — only what they leave behind matters",
                "input symbols are single characters (a multi-character symbol validates, but Python strings are read "
                "character by character, so the graph-based isempty/isfinite and the string language then talk about "
                "different things — documented domain restriction, reviewer item X3)",
@@ -496,12 +509,280 @@ def none_row_corpus(ctx: Ctx):
         do_cmp(ctx, d, d.copy(), "corpus_none_row_accepted")
 
 
+# ------------------------------------------------------------------ round-4 families
+def _nine(A: DFA, B: DFA):
+    """The nine comparisons asked of (A, B); the operands are parameters of this frame only."""
+    return [call(f) for f in (lambda: A == B, lambda: A != B, lambda: A <= B, lambda: A < B, lambda: A >= B,
+                              lambda: A > B, lambda: A.issubset(B), lambda: A.issuperset(B), lambda: A.isdisjoint(B))]
+
+
+def _new_fails(ctx: Ctx) -> int:
+    """Failures recorded so far that are not hits of an open finding (those are reproduced on every run)."""
+    return sum(1 for f in ctx.prop_fails if f["key"] is None)
+
+
+def _wrong(names_prefix: str, got, want):
+    return [(f"{names_prefix[0]} {n} {names_prefix[1]}", g, w) for n, g, w in zip(NAMES, got, want) if g != ("ok", w)]
+
+
+def stream_temporaries(rng, anchor: DFA, n: int):
+    """Reference twins of the temporaries of one stream: random DFAs over the anchor's alphabet, language-equal
+    / nearly equal / sub- / super-language variants of the anchor, the empty and the universal language —
+    so that consecutive temporaries stand in DIFFERENT relations to the anchor."""
+    al = sorted(anchor.input_symbols)
+    out = []
+    while len(out) < n:
+        r = rng.random()
+        if r < 0.55:
+            out.append(gen.rand_dfa(rng, 4, al))
+        elif r < 0.9:
+            v = call(lambda: variants(rng, anchor))
+            out.extend(t for _, t in (v[1] if v[0] == "ok" else []) if len(t.states) <= 12)
+        elif r < 0.95:
+            out.append(DFA.empty_language(set(al)))
+        else:
+            out.append(DFA.universal_language(set(al)))
+    return out[:n]
+
+
+@guarded
+def run_anchor_stream(ctx: Ctx, anchor: DFA, twins, passes: int = 1):
+    """ONE long-lived DFA compared with a stream of temporaries that are built, compared and dropped (so that
+    a later temporary lives at the address of an earlier one): all nine comparisons, the long-lived object on the
+    left AND on the right, every answer judged by the product-search oracle on (anchor, reference twin of the
+    temporary).  An answer may depend on the two languages only — not on what the long-lived object was compared
+    with before.  The oracle work is done first, so that nothing but the comparisons happens between dropping a
+    temporary and building the next.  Replay = the anchor and the whole stream up to the failing temporary."""
+    specs = [H.spec_of(t) for t in twins]
+    wants = [(truth(anchor, t), truth(t, anchor)) for t in twins]
+    reprs = [repr(t) for t in twins]
+    nt_anchor = reachable_count(anchor) >= 2 and not is_empty(anchor)
+    addresses = set()
+    for p in range(passes):
+        for i, spec in enumerate(specs):
+            T = DFA(**spec)
+            addresses.add(id(T))
+            left, right = _nine(anchor, T), _nine(T, anchor)
+            del T
+            ctx.case(("stream", repr(anchor), reprs[i]) if nt_anchor and len(twins[i].states) >= 2 else None)
+            ctx.stat("anchor_vs_temporary")
+            bad = _wrong(("anchor", "T"), left, wants[i][0]) + _wrong(("T", "anchor"), right, wants[i][1])
+            if bad:
+                text, g, w = bad[0]
+                cmp_name = text.split()[1]
+                A, B = (anchor, twins[i]) if text.startswith("anchor") else (twins[i], anchor)
+                wit = witness(A, B, cmp_name)
+                ctx.prop_fail(f"{text} answered {g[1] if g[0] == 'ok' else 'raised ' + g[1]} but the languages say {w}, "
+                              f"T = temporary #{i + 1 + p * len(specs)} of a stream of DFAs that were built, compared with ONE long-lived "
+                              f"DFA (anchor) and dropped again"
+                              + (f" (witness word {wit!r}: {text.split()[0]} accepts {A.accepts_input(wit)}, "
+                                 f"{text.split()[2]} accepts {B.accepts_input(wit)})" if wit is not None else "")
+                              + (f"; also wrong for this temporary: {', '.join(t for t, _, _ in bad[1:6])}" if bad[1:] else ""),
+                              dict(op="anchor_stream", anchor=repr(anchor), temporaries=reprs[: i + 1],
+                                   comparison=text, passes=p + 1))
+                return
+    ctx.stat("anchor_stream")
+    if len(addresses) < len(specs) * passes:
+        ctx.stat("anchor_stream_with_reused_address")
+    # the same pairs with both operands alive: model vs code (and the oracle once more)
+    if twins:
+        do_cmp(ctx, anchor, twins[-1], "anchor_stream_pair")
+
+
+def anchor_stream_family(ctx: Ctx, n_streams: int, n_temps: int):
+    rng = ctx.rng
+    for _ in range(n_streams):
+        al = rng.choice(gen.ALPHABETS[:4])
+        anchor = gen.rand_dfa(rng, 5, al, min_states=2) if rng.random() < 0.8 else H.lasso_dfa(rng, 5)
+        run_anchor_stream(ctx, anchor, stream_temporaries(rng, anchor, n_temps))
+        if _new_fails(ctx) >= 3:
+            return
+
+
+# ---- C06 queries asked BETWEEN queries of the other query families, on the same objects
+# steps (JSON-able): other-family queries `dict(q=<H.OTHER_KINDS>, ..., on="A"|"B")` (asked, NOT judged here) and the
+# C06 queries `dict(q="isempty"|"isfinite", on=...)`, `dict(q="cmp", left="A"|"B")` (all nine comparisons), judged.
+def show_hstep(s: dict) -> str:
+    if s["q"] == "cmp":
+        return "the nine comparisons (A, B)" if s["left"] == "A" else "the nine comparisons (B, A)"
+    if s["q"] in ("isempty", "isfinite"):
+        return f"{s['on']}.{s['q']}()"
+    txt = H.show_other(s)
+    if s["q"] == "len":
+        return f"len({s['on']})"
+    if txt.startswith("first"):
+        return txt.replace(" of ", f" of {s['on']}.", 1)
+    return f"{s['on']}.{txt}"
+
+
+def run_history(refA: DFA, refB: DFA, steps, want=None):
+    """Build live objects from the two definitions, ask the steps; returns (index, message, comparison) of the
+    first wrong C06 answer or None.  The oracles see refA / refB only."""
+    want = history_wants(refA, refB) if want is None else want
+    live = {"A": DFA(**H.spec_of(refA)), "B": DFA(**H.spec_of(refB))}
+    keep = []
+    for i, s in enumerate(steps):
+        q = s["q"]
+        if q == "cmp":
+            x, y = s["left"], "B" if s["left"] == "A" else "A"
+            got = _nine(live[x], live[y])
+            bad = _wrong((x, y), got, want["cmp" + x])
+            if bad:
+                text, g, w = bad[0]
+                rx, ry = (refA, refB) if x == "A" else (refB, refA)
+                wit = witness(rx, ry, text.split()[1])
+                return i, (f"{text} answered {g[1] if g[0] == 'ok' else 'raised ' + g[1]} but the languages say {w}"
+                           + (f" (witness word {wit!r}: {x} accepts {rx.accepts_input(wit)}, {y} accepts "
+                              f"{ry.accepts_input(wit)})" if wit is not None else "")), text
+        elif q in ("isempty", "isfinite"):
+            x = live[s["on"]]
+            got = H.L.guarded((lambda: x.isempty()) if q == "isempty" else (lambda: x.isfinite()), H.STEP_TIMEOUT_S)
+            w = want[q + s["on"]]
+            if got != ("ok", w):
+                lang = ("empty" if w else "non-empty") if q == "isempty" else ("finite" if w else "infinite")
+                return i, f"{s['on']}.{q}() answered {got} but the language of {s['on']} is {lang}", None
+        else:
+            H.exec_other(live[s["on"]], s, keep)
+    return None
+
+
+class history_wants(dict):
+    """What the two languages dictate for the C06 queries (computed on demand, by the oracles, from the definitions)."""
+
+    def __init__(self, refA: DFA, refB: DFA):
+        super().__init__()
+        self.refs = {"A": refA, "B": refB}
+
+    def __missing__(self, key):
+        r = self.refs
+        if key.startswith("cmp"):
+            x = key[3:]
+            v = truth(r[x], r["B" if x == "A" else "A"])
+        elif key.startswith("isempty"):
+            v = is_empty(r[key[-1]])
+        else:
+            v = is_finite(r[key[-1]])
+        self[key] = v
+        return v
+
+
+def minimise_history(refA, refB, steps, index, want):
+    """Greedy removal of earlier steps while the last step still gets a wrong answer (time-boxed)."""
+    import time
+    t0 = time.time()
+    cur = list(steps[: index + 1])
+
+    def fails_at_end(st):
+        r = run_history(refA, refB, st, want)
+        return r is not None and r[0] == len(st) - 1
+    if not fails_at_end(cur):
+        return cur
+    j = len(cur) - 2
+    while j >= 0 and time.time() - t0 < 8:
+        cand = cur[:j] + cur[j + 1:]
+        if fails_at_end(cand):
+            cur = cand
+        j -= 1
+    return cur
+
+
+@guarded
+def check_history(ctx: Ctx, refA: DFA, refB: DFA, steps, origin: str, model: bool = False):
+    want = history_wants(refA, refB)
+    r = run_history(refA, refB, steps, want)
+    n_c06 = sum(1 for s in steps if s["q"] in ("cmp", "isempty", "isfinite"))
+    nt = reachable_count(refA) >= 2 and not want["isemptyA"] and len(steps) > n_c06
+    ctx.case(("history", repr(refA), repr(refB), json.dumps(steps, sort_keys=True)) if nt else None)
+    ctx.stat(origin)
+    ctx.stat("history_c06_answers_judged", n_c06)
+    for s in steps:
+        if s["q"] not in ("cmp", "isempty", "isfinite"):
+            ctx.stat("history_other:" + s["q"])
+    if r is not None:
+        i, msg, _ = r
+        small = minimise_history(refA, refB, steps, i, want)
+        hist = "; ".join(show_hstep(s) for s in small[:-1])
+        ctx.prop_fail(f"{msg} — asked after [{hist}] on the same object(s)" if hist else f"{msg} — first query on new objects",
+                      dict(op="history", A=repr(refA), B=repr(refB), steps=small))
+        return
+    if model:
+        # the same objects' definitions through the model as well (fresh objects: the model has no history)
+        do_emptyfin(ctx, DFA(**H.spec_of(refA)), origin + "_model")
+        do_cmp(ctx, DFA(**H.spec_of(refA)), DFA(**H.spec_of(refB)), origin + "_model")
+
+
+def rand_c06_step(rng) -> dict:
+    r = rng.random()
+    if r < 0.3:
+        return dict(q="isfinite", on=rng.choice("AAB"))
+    if r < 0.5:
+        return dict(q="isempty", on=rng.choice("AAB"))
+    return dict(q="cmp", left=rng.choice("AB"))
+
+
+def rand_history(rng, refA: DFA, refB: DFA):
+    """2–4 rounds of (1–3 other-family queries, then 1–2 C06 queries): other queries come BEFORE the first C06
+    query and BETWEEN the later ones."""
+    steps = []
+    for _ in range(rng.randint(2, 4)):
+        for _ in range(rng.randint(1, 3)):
+            on = rng.choice("AAB")
+            steps.append(dict(H.rand_other(rng, refA if on == "A" else refB), on=on))
+        for _ in range(rng.randint(1, 2)):
+            steps.append(rand_c06_step(rng))
+    return steps
+
+
+def history_subject(rng, al=None):
+    r = rng.random()
+    if r < 0.35 and al is None:
+        return H.lasso_dfa(rng, 6)
+    if r < 0.5 and al is None:
+        return H.L.shaped_dfa(rng, 5)[0]
+    return gen.rand_dfa(rng, 5, al)
+
+
+def history_family(ctx: Ctx, n_random: int):
+    """(1) bounded-exhaustive: every DFA with ≤2 states over {a,b} and every unary DFA with ≤3 states (a slice in
+    the quick tier), ONE counting / sampling / enumeration query with a length k ≤ 2n+1, then isempty / isfinite;
+    (2) random histories on shaped DFAs (tail+cycle automata, random, acyclic, finite)."""
+    rng = ctx.rng
+    pool = [d for n in (1, 2) for d in gen.all_dfas(n, ("a", "b"))] + [d for n in (1, 2, 3) for d in gen.all_dfas(n, ("a",))]
+    every = 1 if ctx.thorough() else 4
+    other = DFA.universal_language({"a"})
+    for i, d in enumerate(pool):
+        n = len(d.states)
+        for k in range(2 * n + 2):
+            for j, q in enumerate(("count", "random", "words")):
+                if (i + k + j) % every:
+                    continue
+                pre = dict(q=q, k=k, on="A")
+                if q == "random":
+                    pre["seed"] = 5
+                B = other if len(d.input_symbols) == 1 else d
+                check_history(ctx, d, B, [pre, dict(q="isempty", on="A"), dict(q="isfinite", on="A")], "history_exhaustive")
+        if _new_fails(ctx) >= 3:
+            return
+    ctx.exhaustive("all DFAs with ≤2 states over {a,b} and all unary DFAs with ≤3 states × one of count_words_of_length(k) / "
+                   "random_word(k) / words_of_length(k), k ≤ 2n+1, asked BEFORE isempty / isfinite on the same object"
+                   + ("" if ctx.thorough() else " (quick tier: every 4th combination)"))
+    for i in range(n_random):
+        A = history_subject(rng)
+        B = history_subject(rng, sorted(A.input_symbols)) if rng.random() < 0.7 else \
+            (variants(rng, A) or [(None, A.copy())])[0][1]
+        check_history(ctx, A, B, rand_history(rng, A, B), "history_random", model=(i % 10 == 0))
+        if _new_fails(ctx) >= 3:
+            return
+
+
 def run(ctx: Ctx):
     rng = ctx.rng
     probe_temporaries(ctx)
     none_row_corpus(ctx)
     derived_after_query(ctx, ctx.budget(250, 6000))
     mutable_option_family(ctx, ctx.budget(250, 6000))
+    anchor_stream_family(ctx, ctx.budget(40, 400), ctx.budget(30, 60))
+    history_family(ctx, ctx.budget(500, 8000))
     ea = empty_alphabet_dfas()
     for a in ea:
         do_emptyfin(ctx, a, "empty_alphabet")
@@ -555,6 +836,8 @@ def search(ctx: Ctx):
     rng = ctx.rng
     derived_after_query(ctx, ctx.budget(500, 3000))
     mutable_option_family(ctx, ctx.budget(500, 3000))
+    anchor_stream_family(ctx, ctx.budget(100, 800), 60)
+    history_family(ctx, ctx.budget(3000, 12000))
     for _ in range(ctx.budget(15000, 80000)):
         if ctx.n_prop_fails:
             return
@@ -580,6 +863,25 @@ def replay(ctx: Ctx, path: str) -> int:
             print("  " + [f for f in ctx.prop_fails if f["key"] is None][0]["what"])
             return 1
         print("replay: property holds on the history families now")
+        return 0
+    if rp["op"] == "anchor_stream":
+        # the recorded stream, run up to three times over (object addresses are not part of the record)
+        run_anchor_stream(ctx, eval(rp["anchor"], env), [eval(t, env) for t in rp["temporaries"]], passes=3)
+        if ctx.prop_fails:
+            print(f"VIOLATION property=C06 replay={path}")
+            print("  " + ctx.prop_fails[0]["what"])
+            return 1
+        print("replay: property holds on this stream now")
+        return 0
+    if rp["op"] == "history":
+        A, B = eval(rp["A"], env), eval(rp["B"], env)
+        r = run_history(A, B, rp["steps"])
+        if r is not None:
+            hist = "; ".join(show_hstep(x) for x in rp["steps"][: r[0]])
+            print(f"VIOLATION property=C06 replay={path}")
+            print(f"  {r[1]} — step #{r[0] + 1} of the recorded sequence, asked after [{hist}]")
+            return 1
+        print("replay: property holds on this history now")
         return 0
     if rp["op"] == "none_row":
         none_row_corpus(ctx)
